@@ -23,6 +23,7 @@ import SarpyModel.Drivers.XsdFmt
 import SarpyModel.Drivers.Kernels2
 import SarpyModel.Drivers.Tre
 import SarpyModel.Drivers.Dispatch
+import SarpyModel.Drivers.DispatchGen
 namespace Sarpy.Drivers
 
 def step (line : String) : String :=
@@ -53,6 +54,7 @@ def step (line : String) : String :=
   | "k2" :: rest => (k2Step rest).getD "bad-op"
   | "tre" :: rest => (treStep rest).getD "bad-op"
   | "disp" :: rest => (dispStep rest).getD "bad-op"
+  | "dispgen" :: rest => (dispgenStep rest).getD "bad-op"
   | _ => "bad-op"
 
 partial def loop (h : IO.FS.Stream) : IO Unit := do
